@@ -152,7 +152,7 @@ def run(chk, replay=None):
         chk.only(replay, keys=("clause", "fmt", "path"))
     ec = mod("pyscsi.pyscsi.scsi_enum_command")
     rng = random.Random(chk.seed)
-    n = 60 if chk.quick else 12000
+    n = 60 if chk.quick else 30000
     marsh, cons = [], []
 
     def record(fmt, cls, setname, build, inp):
